@@ -317,6 +317,20 @@ for c in ("Add", "Maximum"):
                   "bits=8,int=7)]).output -> bits 9, int_bits 8, i.e. 0 "
                   "fractional bits although the first operand has 7"}
 
+TRIAGE[("C17", "R5", _MG + "MergeFactory.make_quantizer",
+        "merge-insufficient-frac-bits")] = {
+    "what_fails": "Add starts its running maximum of the operands' integer "
+                  "bits at -1, so an operand with int_bits <= -2 is merged "
+                  "as if it had -1: the output keeps max_bits + 1 bits but "
+                  "gets int_bits 0, one or more fractional bits fewer than "
+                  "the operand has (seen for a one-entry operand list - a "
+                  "node feeding the Add twice over the single graph edge - "
+                  "and equally for a pair)",
+    "replayed": "MergeFactory().make_quantizer([(QuantizedBits bits=8, "
+                "int_bits=-2, signed, {})], 'Add').output -> bits 9, "
+                "int_bits 0: 8 fractional bits, the operand has 9; the same "
+                "for the pair [(q, {}), (q, {})]"}
+
 # ---------------------------------------------------------------------- C19
 _QU = "qkeras/qtools/qtools_util.py::get_operation_count"
 _ES = "qkeras/estimate.py::extract_model_operations"
